@@ -443,3 +443,29 @@ LEAF_SUBCLASSES = (ListSub, TupleSub, DictSub, ODictSub, DDictSub, DequeSub)
 
 def is_custom_type(cls):
     return any(k[1] is cls for k in REG)
+
+
+# ----------------------------------------------------------------------------- malformed custom nodes
+# Registered in their own namespace so that no other workload ever meets them.
+NS_BAD = 'vfbad'
+
+
+class BadBase(CBase):
+    __slots__ = ()
+
+
+def _mk_bad(name, flatten):
+    cls = type(name, (BadBase,), {'__slots__': ()})
+    optree.register_pytree_node(cls, flatten, lambda m, c: cls(c, m), namespace=NS_BAD)
+    return cls
+
+
+Bad1Tuple = _mk_bad('Bad1Tuple', lambda o: (tuple(o.kids),))
+Bad4Tuple = _mk_bad('Bad4Tuple', lambda o: (tuple(o.kids), None, None, None))
+BadChildrenNonIter = _mk_bad('BadChildrenNonIter', lambda o: (7, None))
+BadEntriesShort = _mk_bad('BadEntriesShort', lambda o: (tuple(o.kids), None, tuple(range(len(o.kids) - 1))))
+BadEntriesLong = _mk_bad('BadEntriesLong', lambda o: (tuple(o.kids), None, tuple(range(len(o.kids) + 1))))
+BadEntriesNonIter = _mk_bad('BadEntriesNonIter', lambda o: (tuple(o.kids), None, 5))
+BadNonTuple = _mk_bad('BadNonTuple', lambda o: 42)
+BadRaises = _mk_bad('BadRaises', lambda o: (_ for _ in ()).throw(KeyError('boom')))
+BAD_CLASSES = (Bad1Tuple, Bad4Tuple, BadChildrenNonIter, BadEntriesShort, BadEntriesLong, BadEntriesNonIter, BadNonTuple, BadRaises)
